@@ -113,6 +113,22 @@ def table_m(facts, rep, rule_guard, rule_kind, self_ty=MEM, trait="FileSystem", 
                             v = st.rv.agg["variant"]
                             if v in ("FileExists", "DirectoryExists"):
                                 kinds[v] = (gv.type_is(mm.key_arg(b), "File" if v == "FileExists" else "Directory"), st.line)
+            # ... whatever else is wrong with the call: an occupied path is answered with the occupant's kind before any other
+            # refusal is considered (the root is occupied and has no parent to find)
+            key_ = mm.key_arg(b)
+            for ct, _, rbb in mm.inter.ret_cases(b):
+                if mm.inter.case_polarity(ct) != "err":
+                    continue
+                tn = norm(ct)
+                if any(x[0] == "agg" and x[1] == "error::VfsErrorKind" and x[2] in ("FileExists", "DirectoryExists") for x in walk(tn)):
+                    continue
+                cbr = mm.inter.code_body(b)
+                okv = GuardView(mm.guards(cbr, rbb), mm.inter).vacant(key_)
+                n += 1
+                rep.ob(rule_kind, b.id, "create_dir: every other refusal is made for a vacant target only", okv, "" if okv else
+                       "create_dir can fail with %s before it has looked at what occupies the path: on an occupied path (the root, "
+                       "whose parent cannot be found) the caller gets that error instead of DirectoryExists / FileExists"
+                       % fmt(tn)[:60], cbr.blocks[rbb].term.line)
             for v in ("FileExists", "DirectoryExists"):
                 ok = v in kinds and kinds[v][0]
                 n += 1
@@ -168,6 +184,24 @@ def table_m(facts, rep, rule_guard, rule_kind, self_ty=MEM, trait="FileSystem", 
                 rep.fail(rule_guard, b.id, "remove_dir: removal present", "no removal found", b.span)
             for cb, bb, sh, key, line in rms:
                 need(op, b, cb, bb, line, "remove", ["E", "D", "M"], sh)
+            # the classes of its refusals follow the same order: "not empty" is said about an existing directory — a missing
+            # target is not-found whatever keys happen to start with its name
+            cbr = mm.inter.code_body(b)
+            for ct, _, rbb in mm.inter.ret_cases(b):
+                if mm.inter.case_polarity(ct) != "err":
+                    continue
+                gs_ = mm.guards(cbr, rbb)
+                scanned = any(g[0] == "bool" and g[2] is True and any(
+                    x[0] == "call" and isinstance(x[1], str) and x[1] in ("HashMap::keys", "HashMap::iter", "BTreeMap::keys", "BTreeMap::iter", "BTreeMap::range")
+                    for x in walk(g[1])) for g in gs_)
+                if not scanned:
+                    continue
+                gv_ = GuardView(gs_, mm.inter)
+                oke = gv_.exists(mm.key_arg(b))[0] and gv_.type_is(mm.key_arg(b), "Directory")
+                n += 1
+                rep.ob(rule_kind, b.id, "remove_dir: 'not empty' is answered for an existing directory only", oke, "" if oke else
+                       "remove_dir looks for children before it has found the directory: a missing target with leftover keys below its "
+                       "name is reported as 'not empty' instead of FileNotFound", cbr.blocks[rbb].term.line)
         elif op in ("set_creation_time", "set_modification_time", "set_access_time"):
             fw = mm.field_writes(b)
             if not fw:
